@@ -515,7 +515,7 @@ func c06AssignedIn(l []ast.Stmt, order []string) []string {
 					}
 				}
 			case *ast.IncDecStmt:
-				if v := c06Assigned(x.X); v != "" {
+				if v := c06Assigned(x.X); v != "" && !declared[v] { // i++ of an index loop inside l: i is local to l
 					set[v] = true
 				}
 			case *ast.RangeStmt:
